@@ -14,6 +14,10 @@ def main():
     if len(sys.argv) >= 3 and sys.argv[1] == "replay":
         data = json.load(open(sys.argv[2]))
         mod = importlib.import_module("props.main_" + data["property"].lower())
+        if data.get("kind") == "known-witness":
+            bad = getattr(mod, "WITNESSES", {})[data["witness"]]()
+            print("replay witness", data["witness"], "->", bad)
+            sys.exit(1 if bad else 0)
         sys.exit(mod.replay(data))
     ap = argparse.ArgumentParser()
     ap.add_argument("prop")
